@@ -114,6 +114,7 @@ func c04UnfoldAt(p *ana.Prog, r *ana.Result, pset *ana.ProverSet, fn *ssa.Functi
 	}
 	// congruence: every value reaching sec is epoch + k*2^32 + Seconds
 	var leaves []ssa.Value
+	badOffset := false
 	seen := map[ssa.Value]bool{}
 	var expand func(v ssa.Value)
 	expand = func(v ssa.Value) {
@@ -127,11 +128,32 @@ func c04UnfoldAt(p *ana.Prog, r *ana.Result, pset *ana.ProverSet, fn *ssa.Functi
 			}
 			return
 		}
+		// x +/- d with d a merge of constants (an era correction chosen elsewhere, e.g. returned by a
+		// helper): every constant must be a whole number of eras, x is examined on its own
+		if bo, ok := v.(*ssa.BinOp); ok && (bo.Op == token.ADD || bo.Op == token.SUB) {
+			for _, pr := range [][2]ssa.Value{{bo.X, bo.Y}, {bo.Y, bo.X}} {
+				if bo.Op == token.SUB && pr[1] != bo.Y {
+					continue
+				}
+				if ks, ok := constMerge(pr[1]); ok {
+					for _, k := range ks {
+						if k%secsPerEra != 0 {
+							badOffset = true
+						}
+					}
+					expand(pr[0])
+					return
+				}
+			}
+		}
 		leaves = append(leaves, v)
 	}
 	expand(sec)
 	okCong := len(leaves) > 0
 	why := ""
+	if badOffset {
+		okCong, why = false, "a correction added to the second count is not a whole number of eras"
+	}
 	for _, lf := range leaves {
 		l, ok := pr.Int(lf, 0)
 		if !ok {
@@ -163,6 +185,38 @@ func c04UnfoldAt(p *ana.Prog, r *ana.Result, pset *ana.ProverSet, fn *ssa.Functi
 	} else {
 		r.Violate("C04.unfold", fname, "congruent-to-seconds-field"+suffix, posOf(p, at), "the unfolded second count is not the seconds field plus the NTP epoch plus a whole number of eras ("+why+")")
 	}
+}
+
+// constMerge: v is a merge (phi, possibly nested) all of whose inputs are integer constants.
+func constMerge(v ssa.Value) ([]int64, bool) {
+	ph, ok := v.(*ssa.Phi)
+	if !ok {
+		return nil, false
+	}
+	var out []int64
+	seen := map[*ssa.Phi]bool{}
+	var rec func(q *ssa.Phi) bool
+	rec = func(q *ssa.Phi) bool {
+		if seen[q] {
+			return true
+		}
+		seen[q] = true
+		for _, e := range q.Edges {
+			if k, ok := ana.ConstInt(e); ok {
+				out = append(out, k)
+				continue
+			}
+			if n, ok := e.(*ssa.Phi); ok && rec(n) {
+				continue
+			}
+			return false
+		}
+		return true
+	}
+	if !rec(ph) || len(out) == 0 {
+		return nil, false
+	}
+	return out, true
 }
 
 // c04Seconds: Seconds = uint32(t.Unix() - epoch).
